@@ -450,6 +450,18 @@ def gen_doc(rng):
 
 MAT_NODES = ['\\x', '\\y{a}', '\\item c', '{g}', '$m$', '\\begin{a}t\\end{a}', ' y', '\\x']
 MAT_STRS = ['s', ' ', ' y', '']
+# plain strings that are LaTeX source: handed to append/insert/replace they are spliced in
+# verbatim as ONE text leaf (never parsed): a command separated from its argument group by a
+# blank / line break, a fixed-signature command with a bare token, unbalanced fragments, a lone
+# backslash, a comment, closing delimiters
+SRC_STRS = ['\\ref {fig}', '\\textbf a', '\\emph [a] {b}', '\\section\n{T}', '\\item [1] {uno}', '\\begin{x}',
+            '\\end{a}', '$a $ b', '\\[', '\\(', '{', '}', '\\foo{', '\\', '%c', '\\x %c\n', '\\def \\foo', ']',
+            '\\x{a}', '\\\\ \\$']
+
+
+def gen_str(rng, src=0.3):
+    """A plain string for new material: a word/blank, or (probability `src`) LaTeX source."""
+    return rng.choice(SRC_STRS) if rng.random() < src else rng.choice(MAT_STRS)
 ARG_MATS = ['g:' + enc('\\x[o]'), 'g:' + enc('\\x{a}'), 'g:' + enc('\\x{a \\x}'),
             'n:' + enc('{n}'), 'g:' + enc('\\x{a}')]
 
@@ -487,7 +499,7 @@ def gen_mats(rng, lo=1, hi=3, inner=0.12):
         elif r < inner + (1 - inner) * 0.6:
             out.append('n:' + enc(rng.choice(MAT_NODES)))
         else:
-            out.append('s:' + enc(rng.choice(MAT_STRS)))
+            out.append('s:' + enc(gen_str(rng)))
     return ','.join(out) if out else '_'
 
 
@@ -932,7 +944,13 @@ class Op(object):
                 self.nums = [int(w[3]), int(w[4])]
             elif self.sub == 'perm':
                 self.nums = [int(x) for x in w[3].split(',')] if w[3] != '_' else []
-            elif self.sub not in ('rev', 'rs', 'clr'):
+            elif self.sub == 'sins':
+                self.nums, self.mats = [int(w[3])], [argmat(w[4])]
+            elif self.sub == 'sapp':
+                self.mats = [argmat(w[3])]
+            elif self.sub == 'spop':
+                self.nums = [int(w[3])]
+            elif self.sub not in ('rev', 'rs', 'clr', 'same', 'srev'):
                 raise ValueError(op)
         elif k != 'del':
             raise ValueError(op)
@@ -953,9 +971,18 @@ def argmat(w):
     return fresh(w, as_expr=True)
 
 
+SELF_ASSIGN = {'same': None, 'srev': 'rev', 'spop': 'pop', 'sins': 'ins', 'sapp': 'app'}
+
+
 def _list_op(P, ref):
-    """The TexArgs operation of P on a plain Python list (raises what list raises)."""
+    """The TexArgs operation of P on a plain Python list (raises what list raises).  The
+    self-assignment forms (`a = node.args; <edit a in place>; node.args = a`) mean the list as it
+    is after the in-place edit."""
     s = P.sub
+    if s in SELF_ASSIGN:
+        s = SELF_ASSIGN[s]
+        if s is None:
+            return ref
     if s == 'app':
         ref.append(P.mats[0])
     elif s == 'ext':
@@ -1114,6 +1141,17 @@ def perform(soup, P, variant=0):
             node.args = node.args[P.nums[0]:P.nums[1]]
         elif s == 'perm':
             node.args = D.TexArgs([node.args[i] for i in P.nums])
+        elif s in SELF_ASSIGN:
+            a = node.args                               # the live handle
+            if s == 'srev':
+                a.reverse()
+            elif s == 'spop':
+                a.pop(P.nums[0])
+            elif s == 'sins':
+                a.insert(P.nums[0], P.mats[0])
+            elif s == 'sapp':
+                a.append(P.mats[0])
+            node.args = a                               # ... put back
 
 
 # ----------------------------------------------------------------------------- tree snapshots
@@ -1349,7 +1387,14 @@ def gen_aop(rng, soup):
         return None
     path, x = rng.choice(named)
     p, n = show_path(path), len(x.args)
-    sub = rng.choice(['app', 'app', 'ext', 'ins', 'ins', 'pop', 'pop', 'rem', 'rev', 'rs', 'clr', 'sl', 'perm'])
+    sub = rng.choice(['app', 'app', 'ext', 'ins', 'ins', 'pop', 'pop', 'rem', 'rev', 'rs', 'clr', 'sl', 'perm',
+                      'same', 'srev', 'spop', 'sins', 'sapp'])
+    if sub == 'sapp':
+        return 'aop %s sapp %s' % (p, rng.choice(AOP_MATS))
+    if sub == 'sins':
+        return 'aop %s sins %d %s' % (p, rng.randint(-n - 1, n + 1), rng.choice(AOP_MATS))
+    if sub == 'spop':
+        return 'aop %s spop %d' % (p, rng.randint(-n - 1, n))
     if sub == 'app':
         return 'aop %s app %s' % (p, rng.choice(AOP_MATS))
     if sub == 'ext':
@@ -1681,6 +1726,8 @@ def mat_show(m):
         return 'node at %s of TexSoup(%r)' % (sel, dec(src))
     if m[0] == 'c':
         return 'copy() of the node at %s' % m[2:]
+    if m[0] == 'g':
+        return 'the first argument of %s' % dec(m[2:])
     return 'node(%s)' % dec(m[2:])
 
 
